@@ -41,9 +41,18 @@ days = st.tuples(st.one_of(st.integers(rd.MAR1_ORD, rd.LAST_ORD), st.integers(rd
 datetimes = st.tuples(st.integers(rd.MAR1_ORD, 745000), st.integers(1, 86399999)).map(_dt)
 isotext = st.tuples(st.integers(rd.MAR1_ORD, 745000), st.sampled_from([None, ' ', 'T']), st.integers(0, 86399)).map(
     lambda t: datetime.date.fromordinal(t[0]).isoformat() + ('' if t[1] is None else '%s%02d:%02d:%02d' % (t[1], t[2] // 3600, t[2] // 60 % 60, t[2] % 60)))
+def _wordtext(t):
+    d = datetime.date.fromordinal(t[0])
+    mon = ['January', 'February', 'March', 'April', 'May', 'June', 'July', 'August', 'September', 'October', 'November', 'December'][d.month - 1]
+    wd = ['Mon', 'Tue', 'Wed', 'Thu', 'Fri', 'Sat', 'Sun'][d.weekday()]
+    return ['%d %s %d' % (d.day, mon[:3], d.year), '%s %d, %d' % (mon[:3], d.day, d.year), '%d %s %d' % (d.day, mon, d.year), '%s, %d %s %d' % (wd, d.day, mon[:3], d.year),
+            '%04d%02d%02dT%02d%02d%02d' % (d.year, d.month, d.day, t[2] // 3600, t[2] // 60 % 60, t[2] % 60), '%s %d, %d' % (mon, d.day, d.year)][t[1]]
+
+
+wordtext = st.tuples(st.integers(rd.MAR1_ORD, 745000), st.integers(0, 5), st.integers(0, 86399)).map(_wordtext)       # text that spells a date with the month as a word, or in compact ISO form
 derived = st.one_of(st.integers(-50, 50).map(lambda k: {'$': 'sub', 'v': ['int', k]}), st.integers(-200, 200).map(lambda k: {'$': 'sub', 'v': ['float', k / 8.0]}))      # host numbers of classes derived from int / float
 scalar_classes = {'int': st.one_of(ints, ints, ints, ints, derived), 'float': floats, 'logical': st.booleans(), 'blank': st.none(), 'numtext': numtext, 'badtext': badtext,
-                  'date': days, 'datetime': datetimes, 'isotext': isotext}
+                  'date': days, 'datetime': datetimes, 'isotext': isotext, 'wordtext': wordtext}
 any_scalar = st.one_of(*scalar_classes.values())
 flat_arr = st.lists(st.one_of(ints, floats, ints, st.booleans(), st.none(), numtext, badtext, days), max_size=8)
 nested_arr = st.lists(st.one_of(ints, st.lists(st.one_of(ints, floats, st.none()), min_size=1, max_size=3)), min_size=1, max_size=5)
